@@ -8,7 +8,7 @@ import ast
 
 import z3
 
-from .sym import (DTYPE_RANGE, EngineError, V, VBool, VDict, VFunc, VInt, VModule, VNone, VObj, VOpaque, VOpt,
+from .sym import (DTYPE_RANGE, EngineError, V, VBool, VDict, VFunc, VInt, VMat, VModule, VNone, VObj, VOpaque, VOpt,
                   VReal, VSeq, VSet, VStr, VTuple, fresh_name, fresh_value, from_term, sort_of, to_term)
 
 MODULES = {'np': 'numpy', 'numpy': 'numpy', 'pd': 'pandas', 'itertools': 'itertools', 'random': 'random',
@@ -173,9 +173,23 @@ def s_float(I, st, args, kwargs):
     raise EngineError(f'float() of {v!r}')
 
 
-@stub('numpy.int32', 'numpy.uint32', 'numpy.int64')
+@stub('numpy.int32', 'numpy.int64')
 def s_npint(I, st, args, kwargs):
     return s_int(I, st, args, kwargs)
+
+
+@stub('numpy.uint32')
+def s_npuint32(I, st, args, kwargs):
+    v = s_int(I, st, args, kwargs)
+    return VInt(I.pymod(v.t, z3.IntVal(2**32)))
+
+
+@stub('hash')
+def s_hash(I, st, args, kwargs):
+    """hash(x): an uninterpreted deterministic function of the value (64-bit signed)."""
+    v = args[0]
+    f = z3.Function('pyhash_' + str(sort_of(v.kind)), sort_of(v.kind), z3.IntSort())
+    return VInt(f(to_term(v, v.kind)))
 
 
 @stub('str')
@@ -221,8 +235,24 @@ _FUNCS['min'] = _minmax('min')
 _FUNCS['max'] = _minmax('max')
 
 
+def materialize(I, st, a):
+    """Replace a lambda-defined cell array by a named array with a pointwise axiom (needed as a trigger)."""
+    if a.arr is None or z3.is_const(a.arr) and a.arr.decl().kind() == z3.Z3_OP_UNINTERPRETED:
+        return a
+    i = z3.Int(fresh_name('i'))
+    G = z3.Array(fresh_name('mat'), z3.IntSort(), sort_of(a.ek))
+    body = z3.simplify(a.arr[i])
+    try:
+        ax = z3.ForAll([i], G[i] == a.arr[i], patterns=[G[i], body])
+    except z3.Z3Exception:
+        ax = z3.ForAll([i], G[i] == a.arr[i], patterns=[G[i]])
+    I.assume(st, ax)
+    return VSeq(a.ek, a.length, G, init=a.init, flavor=a.flavor, dtype=a.dtype)
+
+
 def seq_extreme(I, st, a, which):
     """max/min of a non-empty numeric sequence: bound on every element and attained."""
+    a = materialize(I, st, a)
     I.oblige(st, f'nonempty[{which}]', a.length > 0)
     if a.init is not None:
         j = z3.Int(fresh_name('j'))
@@ -696,14 +726,29 @@ def comprehension(I, st, e, out):
     I._target_names(comp.target, names)
     saved = {nm: st.env.get(nm) for nm in names}
     I.assign(comp.target, elem(k), st)
-    st.guards.append(z3.BoolVal(False))
+    # safety obligations raised under the binder are re-stated universally over the iteration variable
+    rng_guard = z3.And(k >= 0, k < n)
+    st.guards.append(rng_guard)
     n_ob = len(I.obligations)
+    n_guard = 1
     try:
-        conds = [I.truth(I.eval(c, st), st) for c in comp.ifs]
+        conds = []
+        for c in comp.ifs:
+            t = I.truth(I.eval(c, st), st)
+            conds.append(t)
+            st.guards.append(t)
+            n_guard += 1
         body = I.eval(e.elt, st)
     finally:
-        st.guards.pop()
-        del I.obligations[n_ob:]
+        for _ in range(n_guard):
+            st.guards.pop()
+        for ob in I.obligations[n_ob:]:
+            inner = [a for a in ob.assumptions[len(st.pc):]]
+            # assumptions = pc-at-that-time + guards; keep pc prefix, quantify the guard part with the goal
+            k_guards = [g for g in ob.assumptions if any(_mentions(g, k) for _ in (0,))]
+            rest = [g for g in ob.assumptions if not _mentions(g, k)]
+            ob.assumptions = rest
+            ob.goal = z3.ForAll([k], z3.Implies(z3.And(*k_guards) if k_guards else z3.BoolVal(True), ob.goal))
         for nm, old in saved.items():
             if old is None:
                 st.env.pop(nm, None)
@@ -795,3 +840,19 @@ def s_sorted(I, st, args, kwargs):
     r = VSeq(L.ek, n, R, flavor='list')
     r.perm = (pi, pinv)
     return r
+
+
+def _mentions(t, v):
+    seen, stack = set(), [t]
+    while stack:
+        x = stack.pop()
+        if x.get_id() in seen:
+            continue
+        seen.add(x.get_id())
+        if x.eq(v):
+            return True
+        if z3.is_quantifier(x):
+            stack.append(x.body())
+        else:
+            stack.extend(x.children())
+    return False
